@@ -180,7 +180,7 @@ Definition nv_fs (s : list nat) : option fmap :=
              (exec (map api nv_calls) s (init_cfg (map api nv_calls) empty_world)).
 Definition nv_s1 : list nat := [0;0;0;0;0;1;1;1;1;1].
 Definition nv_s2 : list nat := nv_s1 ++ repeat 0 25 ++ repeat 1 4.
-Definition nv_s3 : list nat := nv_s2 ++ repeat 2 19.
+Definition nv_s3 : list nat := nv_s2 ++ repeat 2 20.
 
 Example C09_nonvacuous :
   nv_fs nv_s1 = Some [(ATmp ArObj 0 0, CData 7 2 1); (ATmp ArMeta 1 0, CData 9 3 2)] /\
